@@ -8,6 +8,10 @@ def build(repo, tier, seed):
     b["assumptions"].append("Dataset: evaluates to callback(implementation), both evaluated under mix(mix(default options, caller's options), pre-set options), proved compositionally: the temporaries "
                             "of Dataset._composed are used through the C05 specifications proved for WithOptions, Cached, Logged, Computation and Apply (spec_c05.tower_contracts), "
                             "effects that do not fail (region F15) and a sound cache backend (B-sound)")
+    from . import ctor_c05
+    b["syntactic"] += ctor_c05.obligations(repo)
+    b["assumptions"].append("constructors store their arguments faithfully: AST obligation over __init__ of the 29 classes reaching the labrea ABCs (every field is assigned from its own "
+                            "parameter through order- and content-preserving normalisers only; no parameter is dropped) - the class laws and specifications are stated over the fields")
     from . import collections_c05
     from .common import fn_hashes
     c_syn, c_und = collections_c05.obligations(repo)
